@@ -928,17 +928,36 @@ def rule_alignment_tables(ctx, m):
     pm2, g = _func(m, 'dtaidistance.alignment', 'best_alignment')
     ops = chars = None
     ops_name = chars_name = None
+    single = None
+
+    def arrow_name(x):
+        return x[1][2] if x[0] == 'attr' and x[2] == 'value' and x[1][0] == 'attr' and x[1][1] == ('var', 'Direction') else None
+
+    def number(y):
+        if y[0] == 'num':
+            return y[1]
+        if y[0] == 'un' and y[1] == 'neg' and y[2][0] == 'num':
+            return -y[2][1]
+        return None
     for s in g.body:
-        # the two parallel tables, recognised by their content: offsets (pairs of numbers) and arrow codes (Direction.X.value)
+        # the two parallel tables, recognised by their content: offsets (pairs of numbers) and arrow codes (Direction.X.value) -- or one table of
+        # (arrow code, row offset, column offset) entries (any position of the arrow code inside the entry)
         if s.k == 'assign' and s.target[0] == 'var' and s.value[0] == 'list' and s.value[1] and all(x[0] == 'tuple' and len(x[1]) == 2 and all(y[0] == 'num' for y in x[1]) for x in s.value[1]):
             ops = [tuple(-abs(y[1]) if y[0] == 'num' else None for y in x[1]) for x in s.value[1]]
             ops_name = s.target[1]
         if s.k == 'assign' and s.target[0] == 'var' and s.value[0] == 'list' and s.value[1] and all(x[0] == 'attr' and x[2] == 'value' and x[1][0] == 'attr' and x[1][1] == ('var', 'Direction') for x in s.value[1]):
             chars = [x[1][2] if x[0] == 'attr' and x[2] == 'value' else None for x in s.value[1]]
             chars_name = s.target[1]
-    if ops is None or chars is None:
+        if s.k == 'assign' and s.target[0] == 'var' and s.value[0] in ('list', 'tuple') and s.value[1] and \
+                all(x[0] == 'tuple' and len(x[1]) == 3 and sum(1 for y in x[1] if arrow_name(y)) == 1 and sum(1 for y in x[1] if number(y) is not None) == 2 for x in s.value[1]):
+            single = ({[arrow_name(y) for y in x[1] if arrow_name(y)][0]: tuple(-abs(number(y)) for y in x[1] if number(y) is not None) for x in s.value[1]}, s.target[1],
+                      {[k_ for k_, y in enumerate(x[1]) if arrow_name(y)][0] for x in s.value[1]})
+    if single is not None and (ops is None or chars is None):
+        reader = single[0]
+    elif ops is None or chars is None:
         raise AnalysisError('unrecognised shape: ops/op_chars tables of alignment.best_alignment')
-    reader = dict(zip(chars, ops))
+    else:
+        reader = dict(zip(chars, ops))
     ok = arrows == reader and len(arrows) == 3
     ctx.check(ok, 'R-TAB', pm2.path, 'best_alignment', 'arrow table',
               'the traceback must apply, for each arrow, the offset of the predecessor the DP recorded it for: dp records %s, best_alignment applies %s'
@@ -946,11 +965,50 @@ def rule_alignment_tables(ctx, m):
     # every index selectable through `order` addresses both tables identically
     sel = [x for s in walk_stmts(g.body) for e in stmt_exprs(s) for x in walk_expr(e) if x[0] == 'comp']
     ok = False
-    for c in sel:
-        if c[2][0] == 'idx' and c[2][1] == ('var', ops_name) and c[2][2][0] == 'var':
-            ov = c[2][2]
-            ok = ok or any(x == ('idx', ('var', chars_name), ov) for x in walk_expr(c))
+    if single is not None and (ops is None or chars is None):
+        # one table: an entry carries its own offsets; the selection must unpack the entry in the order the table lists it (arrow position as in the literal)
+        apos = single[2]
+        for c in sel:
+            for tgt, it, conds in c[3]:
+                if tgt[0] == 'tuple' and len(tgt[1]) == 3 and it == ('var', single[1]) and len(apos) == 1:
+                    av = tgt[1][list(apos)[0]]
+                    offs_v = tuple(t for k_, t in enumerate(tgt[1]) if k_ != list(apos)[0])
+                    uses_arrow = any(x == av for cd in conds for x in walk_expr(cd))
+                    ok = ok or (uses_arrow and c[2] == ('tuple', offs_v))
+    else:
+        for c in sel:
+            if c[2][0] == 'idx' and c[2][1] == ('var', ops_name) and c[2][2][0] == 'var':
+                ov = c[2][2]
+                ok = ok or any(x == ('idx', ('var', chars_name), ov) for x in walk_expr(c))
     ctx.check(ok, 'R-TAB', pm2.path, 'best_alignment', 'table lookup', 'ops and op_chars must be indexed by the same order index', g.line)
+    # the border walk: once a border is reached the path runs along it to the origin -- every remaining row index v-1, .., 0 (then every column index) is appended
+    main = [k_ for k_, s in enumerate(g.body) if s.k == 'while' and s.cond[0] == 'bin' and s.cond[1] == 'and']
+    if main:
+        walks = []
+        for s in g.body[main[0] + 1:]:
+            app = [t for t in (s.body if s.k in ('while', 'for') else []) if t.k == 'expr' and t.value[0] == 'call' and t.value[1][0] == 'attr' and t.value[1][2] == 'append']
+            if not app:
+                if s.k in ('while', 'for'):
+                    continue
+                break
+            if s.k == 'while':
+                c = s.cond
+                v = c[3] if c[0] == 'bin' and c[1] == '<' and c[2] in (('num', 0),) else None
+                dec = s.body[0] if s.body else None
+                dec_ok = dec is not None and dec.k == 'assign' and dec.target == v and dec.value == ('bin', '-', v, ('num', 1)) and s.body.index(app[0]) > 0
+                walks.append((v, dec_ok and len(s.body) == 2, 'while %s: %s -= 1; append' % (fmt(c), fmt(v) if v else '?'), s.line))
+            else:
+                v = ('var', s.var)
+                okf = s.step == ('un', 'neg', ('num', 1)) or s.step == ('num', -1)
+                okf = okf and s.lo == ('bin', '-', v, ('num', 1)) and s.hi in (('num', -1), ('un', 'neg', ('num', 1))) and len(s.body) == 1
+                walks.append((v, okf, 'for %s in range(%s, %s, %s)' % (s.var, fmt(s.lo), fmt(s.hi), fmt(s.step) if s.step else 1), s.line))
+        okw = len(walks) == 2 and all(w[1] for w in walks) and walks[0][0] != walks[1][0]
+        if len(walks) == 2 and all(w[0] is not None for w in walks):
+            ctx.check(okw, 'R-PATH', pm2.path, 'best_alignment', 'border walk',
+                      'after the trace reaches a border, every remaining index v-1, v-2, .., 0 of the other sequence must be appended (first rows, then columns); found %s'
+                      % [w[2] for w in walks], walks[0][3])
+        else:
+            ctx.undecided('R-PATH', 'best_alignment border walk', 'unrecognised border loops %s' % [w[2] for w in walks])
     # gap emission: per step exactly one symbol-or-gap per sequence, never gap/gap
     loop = [s for s in g.body if s.k == 'foreach' and s.target[0] == 'tuple']
     ok = False
